@@ -12,10 +12,14 @@ pub const VOLS: [f64; 13] = [-60.0, -20.0, -6.0, -0.5, -0.001, 0.0, 0.001, 0.5, 
 
 pub fn run(tier: Tier) -> i32 {
     let rep = Report::new("C16", tier, "model_checking");
-    rep.set_rule("SCOPE: volumes {-60,-20,-6,-0.5,-0.001,0,0.001,0.5,1,2,6,20,60} dB x voices (V0 mel-cepstral, generated mel-cepstral, generated LSP 3- and 2-stream, a generated voice with one very quiet state) x short utterances x (default condition + every single further deviation); oracle: every sample = 10^(v/20) x the 0 dB sample (rel 1e-12), get_volume within 1e-9, all other getters unchanged; plus a volume set before load_model (equal to setting it afterwards); plus streaming use: generate_step into pre-filled buffers of 1x/2x/3x fperiod + 1 samples, where the produced frame is scaled and everything else in the buffer equals the 0 dB run; distinct = (voice, other deviation, utterance, volume); non-trivial = v != 0 and non-empty waveform");
+    rep.set_rule("SCOPE: volumes {-60,-20,-6,-0.5,-0.001,0,0.001,0.5,1,2,6,20,60} dB x voices (V0 mel-cepstral, generated mel-cepstral, generated LSP 3- and 2-stream, a generated voice with one very quiet state) x short utterances (plus, on one generated voice, the whole corpus twice as one utterance of 2912 labels at -6 and 20 dB) x (default condition + every single further deviation, incl. frame periods of 8193 and 70001 samples on the generated voices); oracle: every sample = 10^(v/20) x the 0 dB sample (rel 1e-12), get_volume within 1e-9, all other getters unchanged; plus a volume set before load_model (equal to setting it afterwards); plus streaming use: generate_step into pre-filled buffers of 1x/2x/3x fperiod + 1 samples, where the produced frame is scaled and everything else in the buffer equals the 0 dB run; distinct = (voice, other deviation, utterance, volume); non-trivial = v != 0 and non-empty waveform");
     rep.assume("volume lattice only; comparison skipped on samples that are non-finite in the 0 dB run");
     let corpus = labels::corpus();
-    let utts: Vec<Vec<String>> = vec![vec![corpus[41].clone()], corpus[40..43].to_vec(), corpus[0..2].to_vec()];
+    let mut utts: Vec<Vec<String>> = vec![vec![corpus[41].clone()], corpus[40..43].to_vec(), corpus[0..2].to_vec()];
+    // beyond the small scope: the whole corpus twice as one utterance (2912 labels, 8736 states on the generated voices) -
+    // run on the first generated voice only, default condition, two volumes
+    let n_short = utts.len();
+    utts.push(corpus.iter().chain(corpus.iter()).cloned().collect());
     let mut voices: Vec<(String, jbonsai::Engine, usize, bool)> = vec![("V0".into(), engine_pk(&[0]), 3, true)];
     for cfg in [
         GenCfg { gv: true, ..GenCfg::default() },
@@ -57,9 +61,17 @@ pub fn run(tier: Tier) -> i32 {
             }
             others.push(vec![d]);
         }
+        // frame periods far above the usual ones (one frame = 8193 or 70001 samples), on the generated voices
+        if !v.3 {
+            others.push(vec![Act::Fperiod(8193)]);
+            others.push(vec![Act::Fperiod(70001)]);
+        }
         for (oi, _) in others.iter().enumerate() {
             for ui in 0..utts.len() {
                 if v.3 && ui > 0 && oi > 0 {
+                    continue;
+                }
+                if ui >= n_short && !(vi == 1 && oi == 0) {
                     continue;
                 }
                 jobs.push((vi, others.clone(), oi, ui));
@@ -78,6 +90,9 @@ pub fn run(tier: Tier) -> i32 {
         };
         let g0 = getters(&e0.condition, v.2);
         for &vol in &VOLS {
+            if *ui >= n_short && vol != -6.0 && vol != 20.0 {
+                continue;
+            }
             let mut e = e0.clone();
             e.condition.set_volume(vol);
             rep.eval(1);
